@@ -453,9 +453,14 @@ class DirichletClassificationLikelihood(FixedNoiseGaussianLikelihood):
         self.noise_covar = old_noise_covar
 
         old_noise = old_noise_covar.noise
-        new_targets = kwargs.get("noise")
-        new_noise, new_targets, _ = fantasy_liklihood._prepare_targets(new_targets, self.alpha_epsilon)
+        new_targets = kwargs.get("targets")
+        new_noise, new_transformed_targets, _ = fantasy_liklihood._prepare_targets(
+            new_targets, alpha_epsilon=self.alpha_epsilon, dtype=old_noise.dtype, num_classes=self.num_classes
+        )
         fantasy_liklihood.targets = torch.cat([fantasy_liklihood.targets, new_targets], -1)
+        fantasy_liklihood.transformed_targets = torch.cat(
+            [fantasy_liklihood.transformed_targets, new_transformed_targets.transpose(-2, -1)], -1
+        )
 
         if old_noise.dim() != new_noise.dim():
             old_noise = old_noise.expand(*new_noise.shape[:-1], old_noise.shape[-1])
